@@ -72,8 +72,8 @@ WELLFORMED = ("well-formed values only (C01 clause): identifier tag/column names
 
 PROPS = {
     "C01": {
-        "quick": [phase(16, 4.0, 120)],
-        "thorough": [phase(16, 6.0, 1500)],
+        "quick": [phase(16, 4.0, 900)],
+        "thorough": [phase(16, 20.0, 3000)],
         "rule": ("cases = model values from the stratified generator (stream 'scalar': every scalar kind in turn; stream 'value': "
                  "lists/dicts/grids nested to depth 4 (quick) / 6 (thorough)); each is encoded with to_zinc_string, decoded with "
                  "zinc::decode::from_str and compared component-wise in the harness model (f64 by bits, Ref dis, zone name, "
@@ -87,8 +87,8 @@ PROPS = {
         "min_evals": {"quick": 50_000, "thorough": 1_000_000},
     },
     "C02": {
-        "quick": [phase(16, 4.0, 120)],
-        "thorough": [phase(16, 6.0, 1500)],
+        "quick": [phase(16, 4.0, 900)],
+        "thorough": [phase(16, 20.0, 3000)],
         "rule": ("cases = the C01 generator's model values; each is serialised through serde_json::to_string / to_vec / to_value and "
                  "deserialised through from_str / from_slice / from_value (all 9 combinations, round robin), and scalars and top-level "
                  "collections additionally through their own typed Serialize+Deserialize impl; compared component-wise in the harness "
@@ -103,8 +103,8 @@ PROPS = {
         "min_evals": {"quick": 50_000, "thorough": 1_000_000},
     },
     "C10": {
-        "quick": [phase(16, 4.0, 120)],
-        "thorough": [phase(16, 6.0, 1200)],
+        "quick": [phase(16, 4.0, 900)],
+        "thorough": [phase(16, 30.0, 3000)],
         "crash_is_violation": True,
         "rule": ("cases = Values built directly through public fields/constructors with every String field arbitrary (empty, NUL, "
                  "non-ASCII first char, controls), NaN/INF with units, the default unit, out-of-range dates, leap-second times, "
@@ -121,8 +121,8 @@ PROPS = {
         "min_evals": {"quick": 50_000, "thorough": 1_000_000},
     },
     "C12": {
-        "quick": [phase(16, 8.0, 60)],
-        "thorough": [phase(16, 40.0, 1200)],
+        "quick": [phase(16, 8.0, 900)],
+        "thorough": [phase(16, 40.0, 3000)],
         "rule": ("cases = (a) a fixed pool of ~110 near-colliding Values (+0/-0, same magnitude with different/absent/default unit, Refs "
                  "differing only in dis, dicts differing in one key or value, list prefixes, equal instants in 4 zones, the same payload "
                  "under different kinds, grids differing in meta/column meta/ver) and typed pools (Number, Coord, Ref, Dict, Grid, Column, "
@@ -138,8 +138,8 @@ PROPS = {
         "min_evals": {"quick": 1_000_000, "thorough": 50_000_000},
     },
     "C19": {
-        "quick": [phase(16, 4.0, 120)],
-        "thorough": [phase(16, 6.0, 1200)],
+        "quick": [phase(16, 4.0, 900)],
+        "thorough": [phase(16, 40.0, 3000)],
         "rule": ("cases = generated values (every scalar kind in turn + nested values): exactly one of the 18 is_* predicates is true and it "
                  "is the model's kind; HaystackKind::from(&Value); every TryFrom<&Value> (17 target types) and every HaystackDict getter "
                  "(14) succeeds iff the kind matches and returns the stored payload (strict model equality), absent keys give None; the 15 typed "
@@ -152,8 +152,8 @@ PROPS = {
         "min_evals": {"quick": 50_000, "thorough": 1_000_000},
     },
     "C04": {
-        "quick": [phase(16, 4.0, 120)],
-        "thorough": [phase(16, 6.0, 1500)],
+        "quick": [phase(16, 4.0, 900)],
+        "thorough": [phase(16, 20.0, 3000)],
         "rule": ("cases = the C01 generator's model values; for each, (A) the spec-derived reference writer (harness/src/refzinc.rs) produces a "
                  "random legal spelling (space after commas, trailing list comma, space- or comma-separated dict tags, k vs k:M, exponent "
                  "/ '_' (integer, fraction and exponent digits) / trailing-.0 number spellings, blanks before commas and inside brackets, \\uXXXX (either hex case) and \\b \\f escapes, LF vs CRLF, 'Z' vs 'Z UTC', numeric "
@@ -172,8 +172,8 @@ PROPS = {
         "min_evals": {"quick": 50_000, "thorough": 1_000_000},
     },
     "C03": {
-        "quick": [phase(16, 3.0, 120), phase(1, 1.0, 120, flavour="dev", streams=LADDER_STREAMS)],
-        "thorough": [phase(16, 3.0, 1500),
+        "quick": [phase(16, 3.0, 900), phase(1, 1.0, 900, flavour="dev", streams=LADDER_STREAMS)],
+        "thorough": [phase(16, 8.0, 3000),
                      phase(1, 1.0, 300, flavour="release", streams=LADDER_STREAMS),
                      phase(1, 1.0, 300, flavour="dev", streams=LADDER_STREAMS),
                      phase(8, 0.15, 900, flavour="asan", streams=["corpus", "grammar", "hayson", "bytes"])],
@@ -204,8 +204,8 @@ PROPS = {
         "min_evals": {"quick": 300_000, "thorough": 10_000_000},
     },
     "C07": {
-        "quick": [phase(16, 4.0, 120)],
-        "thorough": [phase(16, 6.0, 1500)],
+        "quick": [phase(16, 4.0, 900)],
+        "thorough": [phase(16, 30.0, 3000)],
         "rule": ("cases = (filter, record) pairs. (a) term matrix, complete: tag/not-tag/every comparison operator x every literal of a "
                  "25-literal pool, on every state of tag 'a' (missing, Null, each of 31 near-colliding values, empty list, list holding the "
                  "value, empty dict) = one cell each; (b) random and/or/paren filters (paths of 1-3 segments through nested dicts) on random "
@@ -221,8 +221,8 @@ PROPS = {
         "min_evals": {"quick": 300_000, "thorough": 8_000_000},
     },
     "C08": {
-        "quick": [phase(16, 4.0, 120)],
-        "thorough": [phase(16, 6.0, 1500)],
+        "quick": [phase(16, 4.0, 900)],
+        "thorough": [phase(16, 40.0, 3000)],
         "rule": ("cases = filter trees: (a) the bounded space of all trees 't', 't and t', 't or t', 't and t or t', 't or t and t', "
                  "'(t or t) and t' over a set of 46 small terms (~2.96e5 trees; enumerated completely across shards in thorough, strided "
                  "sample in quick); (b) random trees to paren depth 3 with every term kind and every literal kind the syntax admits "
@@ -238,8 +238,8 @@ PROPS = {
         "min_evals": {"quick": 150_000, "thorough": 3_000_000},
     },
     "C09": {
-        "quick": [phase(16, 3.0, 120), phase(1, 1.0, 120, flavour="dev", streams=LADDER_STREAMS)],
-        "thorough": [phase(16, 3.0, 1500),
+        "quick": [phase(16, 3.0, 900), phase(1, 1.0, 900, flavour="dev", streams=LADDER_STREAMS)],
+        "thorough": [phase(16, 8.0, 3000),
                      phase(1, 1.0, 300, flavour="release", streams=LADDER_STREAMS),
                      phase(1, 1.0, 300, flavour="dev", streams=LADDER_STREAMS)],
         "crash_is_violation": True,
@@ -257,8 +257,8 @@ PROPS = {
         "min_evals": {"quick": 300_000, "thorough": 10_000_000},
     },
     "C15": {
-        "quick": [phase(16, 1.0, 60)],
-        "thorough": [phase(16, 4.0, 900)],
+        "quick": [phase(16, 1.0, 900)],
+        "thorough": [phase(16, 20.0, 3000)],
         "exhaustive": True,
         "rule": ("exhaustive over the unit database: every unit x every one of its identifiers: get_unit(id) is that unit (pointer "
                  "equality); '<x><id>' (Zinc) and {\"_kind\":\"number\",\"val\":x,\"unit\":id} (Hayson) decode to that unit and the exact "
@@ -272,8 +272,8 @@ PROPS = {
         "min_evals": {"quick": 20_000, "thorough": 100_000},
     },
     "C16": {
-        "quick": [phase(16, 1.0, 60)],
-        "thorough": [phase(16, 4.0, 900)],
+        "quick": [phase(16, 1.0, 900)],
+        "thorough": [phase(16, 20.0, 3000)],
         "exhaustive": True,
         "rule": ("exhaustive over all ordered pairs of database units (443^2 = 196,249) x 5 magnitudes: convert_to is Ok iff the dimension "
                  "vectors are equal (both absent counts as equal; both byte units), equals (x*sa+oa-ob)/sb recomputed by the harness to "
@@ -287,8 +287,8 @@ PROPS = {
         "min_evals": {"quick": 196_249, "thorough": 196_249},
     },
     "C13": {
-        "quick": [phase(16, 2.0, 120)],
-        "thorough": [phase(16, 4.0, 1500)],
+        "quick": [phase(16, 2.0, 900)],
+        "thorough": [phase(16, 12.0, 3000)],
         "exhaustive": True,
         "rule": ("(a) exhaustive over the shipped Project Haystack defs (tests/defs/defs.zinc): for every symbol supertypes_of, all_supertypes_of, "
                  "subtypes_of, all_subtypes_of, inheritance, choices_for, conjuncts_defs, has/has_subtype, fits_marker/val/choice/entity, "
@@ -307,7 +307,7 @@ PROPS = {
         "min_evals": {"quick": 500_000, "thorough": 500_000},
     },
     "C14": {
-        "quick": [phase(8, 12.0, 90)],
+        "quick": [phase(8, 12.0, 900)],
         "thorough": [phase(16, 3.0, 1500),
                      phase(4, 0.15, 1200, flavour="tsan", streams=["schedule"]),
                      phase(16, 0.002, 2400, flavour="miri", streams=["schedule"])],
@@ -328,7 +328,7 @@ PROPS = {
         "min_evals": {"quick": 100_000, "thorough": 2_000_000},
     },
     "C06": {
-        "quick": [phase(16, 1.0, 90)],
+        "quick": [phase(16, 1.0, 900)],
         "thorough": [phase(16, 1.0, 1500)],
         "exhaustive": True,
         "rule": ("exhaustive: every bundled zone with an unambiguous city name (554) x every UTC-offset transition of that zone in "
@@ -350,8 +350,8 @@ PROPS = {
         "min_evals": {"quick": 200_000, "thorough": 1_000_000},
     },
     "C11": {
-        "quick": [phase(16, 2.0, 120)],
-        "thorough": [phase(16, 3.0, 1800)],
+        "quick": [phase(16, 2.0, 900)],
+        "thorough": [phase(16, 10.0, 3000)],
         "rule": ("(1) fixed point: for every text a decoder accepts - grammar-generated Zinc with random spellings, the shipped corpus "
                  "files whole and in slices, accepted mutants of both, the library's Hayson for generated values and accepted mutants of "
                  "it, benches/json/points.json - decode, encode, decode again and compare the two decoded values in the strict model; "
@@ -371,8 +371,8 @@ PROPS = {
         "min_evals": {"quick": 200_000, "thorough": 5_000_000},
     },
     "C20": {
-        "quick": [phase(16, 4.0, 120)],
-        "thorough": [phase(16, 6.0, 900)],
+        "quick": [phase(16, 4.0, 900)],
+        "thorough": [phase(16, 60.0, 3000)],
         "rule": ("(a) precedence, complete: all 2^8 presence subsets of dis, disMacro, disKey, name, def, tag, navName, id x 12 value-kind "
                  "variants (Str, empty Str, Ref with/without dis, Number, Bool, Marker, Uri, Symbol, Null, List, random Unicode), with and "
                  "without a default, through dict_to_dis (with a localisation table) and Dict::dis(); (b) macro patterns: concatenations of "
@@ -386,8 +386,8 @@ PROPS = {
         "min_evals": {"quick": 200_000, "thorough": 10_000_000},
     },
     "C05": {
-        "quick": [phase(16, 4.0, 120)],
-        "thorough": [phase(16, 6.0, 1500)],
+        "quick": [phase(16, 4.0, 900)],
+        "thorough": [phase(16, 20.0, 3000)],
         "rule": ("cases = the C01 generator's model values; (A) the spec-derived Hayson reference writer (harness/src/refjson.rs) writes a "
                  "document with members of every object in random order (incl. _kind anywhere), '_kind':'dict' present/absent, grid meta "
                  "absent / {} / with ver, column meta absent/present, tz present/absent for UTC, 'Z' vs '+00:00', unit-less numbers plain or "
@@ -404,8 +404,8 @@ PROPS = {
         "min_evals": {"quick": 50_000, "thorough": 1_000_000},
     },
     "C17": {
-        "quick": [phase(16, 4.0, 120)],
-        "thorough": [phase(16, 6.0, 1500)],
+        "quick": [phase(16, 4.0, 900)],
+        "thorough": [phase(16, 100.0, 3000)],
         "crash_is_violation": True,
         "rule": ("cases = random histories of C API calls (quick 16x130 histories of 60 calls, thorough 16x1250 of 200) over a pool of "
                  "handles, every extern fn: make/is/get for every kind, push/get/set/remove/len on lists, insert/get/remove/keys/len on "
@@ -424,8 +424,8 @@ PROPS = {
         "min_evals": {"quick": 100_000, "thorough": 3_000_000},
     },
     "C18": {
-        "quick": [phase(16, 1.0, 90), phase(8, 0.5, 120, flavour="asan")],
-        "thorough": [phase(16, 1.0, 900), phase(16, 1.0, 1500, flavour="asan"), phase(4, 1.0, 1200, flavour="tsan", streams=["threads"]),
+        "quick": [phase(16, 1.0, 900), phase(8, 0.5, 900, flavour="asan")],
+        "thorough": [phase(16, 20.0, 3000), phase(16, 2.0, 3000, flavour="asan"), phase(4, 1.0, 1200, flavour="tsan", streams=["threads"]),
                      phase(16, 0.3, 1500, flavour="valgrind"),
                      phase(16, 1.0, 2400, flavour="miri")],
         "crash_is_violation": True,
